@@ -84,6 +84,11 @@ TABLE = {
             'or be consumed where it is used, or be in the persistent table with a reason (found and fixed: bind2Bound leaking into the next attempt); sessionStarted/connected only in openSession whose call sites are last steps; isAuthenticated only in the three authentication continuations; '
             'every disconnect path clears isAuthenticated and retries or closes the session, which clears, notifies and emits on every path; each new stream resets the listener.',
             'That a following attempt succeeds, at-most-once per connection under arbitrary server scripts and behaviour at each cut point are history properties over the network: not decided.', 'DESIGN.md §2 C10'),
+    'C13': ('dominance / control-dependence rules on every instantiation of QXmppPromise<T>::finish (77) and QXmppTask<T>::then (70) found in the library units, plus who-may-call on the shared record',
+            'Static, at the level of the primitive\'s code shape: the continuation is invoked only behind continuation() && isContextAlive(); setFinished(true) dominates everything; the value is stored exactly on the no-continuation edge; '
+            'a late then() runs the functor only behind isFinished() && hasResult(), with the stored value, and resets it on the same path; the registered wrapper checks the context and clears itself on every path; the shared record frees values; '
+            'only the promise/task templates touch it. Template code is analysed through all its instantiations, so a per-specialisation slip (e.g. only the void overload) is seen.',
+            'The full interleaving semantics (re-entrancy from inside a continuation, copies dropped in every order, leak-freedom) need model checking or sanitizers: not decided.', 'DESIGN.md §2 C13'),
 }
 
 NOT_APPLICABLE_REASON = 'check not built yet in this session (see DESIGN.md); listed here until qxverif/rules/<id>.py exists'
